@@ -3,6 +3,7 @@ package c01
 import (
 	"bytes"
 	"fmt"
+	"strings"
 
 	"github.com/miekg/dns"
 	"pgregory.net/rapid"
@@ -25,26 +26,77 @@ import (
 // RCODE and send it on), change header bits or the id, use the OPT setters (version, DO, CO, Z, UDP
 // size, SetExtendedRcode together with Msg.Rcode), take the OPT record out of the additional section
 // and put the same *OPT back later, unpack another message into the value, add or drop a record.
+//
+// Round 9: the value's Compress flag is part of the history (drawn at the start, toggled by a step),
+// and so is a Pack that FAILS: a record that is not well-formed (a 256-octet character-string, an
+// owner name that is not fully qualified, a nil RR, bad hex / base64 text, a 64-octet label, a name
+// over 255 octets) is put into the value - or into another Msg value holding the same message - and
+// Pack is called; nothing is asserted about that call (the statement speaks of well-formed records
+// only), the record is taken out again, and the ordinary Pack that follows is held to the statement
+// like any other: what the failed attempt left behind anywhere (in the value, or in state the packer
+// keeps between calls) must not show up in the image. An image packed with Compress set has no
+// unique octet string; the RFC layout it must follow is RFC 1035 4.1.4: the harness's own
+// pointer-following decoder must read it, strictly, as exactly the message the value holds, every
+// pointer must lead to a prior offset, and the library's Unpack of those octets must give the same
+// message back.
 
 type histStep struct {
-	Op     string // see applyStep
-	N      int    `json:",omitempty"`
-	NoPack bool   `json:",omitempty"` // the value is not packed after this step (the next step works on it as it is)
-	Msg *wm.Msg `json:",omitempty"` // "unpack": the message whose canonical image is read into the value
-	Rec *wm.Rec `json:",omitempty"` // "add-rec"
+	Op     string  // see applyStep
+	N      int     `json:",omitempty"`
+	NoPack bool    `json:",omitempty"` // the value is not packed after this step (the next step works on it as it is)
+	Msg    *wm.Msg `json:",omitempty"` // "unpack": the message whose canonical image is read into the value; "failed-pack" with Other: the message of the other value (nil: the present state of this one)
+	Rec    *wm.Rec `json:",omitempty"` // "add-rec"
+	Bad    int     `json:",omitempty"` // "failed-pack": which ill-formed record (badRecord); N: the section it goes into
+	Other  bool    `json:",omitempty"` // "failed-pack": the failing Pack happens on another Msg value
+	C      bool    `json:",omitempty"` // "failed-pack" with Other: the Compress flag of that value
 }
 
 type histCase struct {
-	Start wm.Msg
-	Steps []histStep
+	Start    wm.Msg
+	Compress bool `json:",omitempty"` // Msg.Compress of the value at the start
+	Steps    []histStep
+}
+
+// badRecord returns a record that is NOT well-formed (Pack is expected to refuse it, nothing is
+// asserted about that) and a word for the class histogram.
+const badKinds = 7
+
+func badRecord(kind, section int) (dns.RR, string) {
+	hdr := func(t uint16) dns.RR_Header {
+		return dns.RR_Header{Name: "ill-formed.example.", Rrtype: t, Class: dns.ClassINET, Ttl: 60}
+	}
+	switch kind % badKinds {
+	case 1:
+		h := hdr(dns.TypeA)
+		h.Name = "not-fully-qualified"
+		return &dns.A{Hdr: h, A: []byte{192, 0, 2, 1}}, "owner-not-fqdn"
+	case 2:
+		if section%3 != 2 { // (Msg.IsEdns0 walks the additional section and cannot stand a nil there)
+			return nil, "nil-rr"
+		}
+	case 3:
+		return &dns.DS{Hdr: hdr(dns.TypeDS), KeyTag: 1, Algorithm: 8, DigestType: 2, Digest: "zz"}, "bad-hex"
+	case 4:
+		return &dns.NS{Hdr: hdr(dns.TypeNS), Ns: strings.Repeat("a", 64) + ".example."}, "label-64"
+	case 5:
+		return &dns.DNSKEY{Hdr: hdr(dns.TypeDNSKEY), Flags: 257, Protocol: 3, Algorithm: 8, PublicKey: "!!!"}, "bad-base64"
+	case 6:
+		return &dns.MX{Hdr: hdr(dns.TypeMX), Preference: 1, Mx: strings.Repeat(strings.Repeat("b", 60)+".", 5)}, "name-over-255"
+	}
+	return &dns.TXT{Hdr: hdr(dns.TypeTXT), Txt: []string{strings.Repeat("x", 256)}}, "string-256"
 }
 
 // histState is the model next to the library value.
 type histState struct {
 	lib      *dns.Msg
 	cur      wm.Msg
-	heldLib  *dns.OPT // the OPT record while it is out of the message (same pointer goes back in)
-	heldRec  *wm.Rec
+	compress bool // Msg.Compress of the value
+	// classification only: the last failing Pack ran with compression over a message that had names
+	// to remember, and no successful Pack happened since; the names it had got through
+	failedCompressed bool
+	failedNames      map[string]bool
+	heldLib          *dns.OPT // the OPT record while it is out of the message (same pointer goes back in)
+	heldRec          *wm.Rec
 	// classification only: where the upper RCODE bits in the OPT record of the value came from
 	origin, heldOrigin string
 }
@@ -198,6 +250,68 @@ func (s *histState) applyStep(st histStep) ([]string, error) {
 			s.lib.Extra = append(s.lib.Extra, rr)
 			s.cur.Ex = append(append([]wm.Rec{}, s.cur.Ex...), *st.Rec)
 		}
+	case "compress":
+		s.lib.Compress = st.N&1 == 1
+		s.compress = st.N&1 == 1
+	case "failed-pack":
+		bad, what := badRecord(st.Bad, st.N)
+		x, compress := s.lib, s.compress
+		if st.Other {
+			src := s.cur
+			if st.Msg != nil {
+				src = *st.Msg
+				classes = append(classes, "failed-pack:other-value-other-message")
+			} else {
+				classes = append(classes, "failed-pack:other-value-same-message")
+			}
+			o, err := wm.MsgToLib(src, st.C)
+			if err != nil {
+				classes = append(classes, "failed-pack:skipped")
+				break
+			}
+			x, compress = o, st.C
+			s.failedNames = suffixKeys(src)
+		} else {
+			classes = append(classes, "failed-pack:same-value")
+			s.failedNames = suffixKeys(s.cur)
+		}
+		var sec *[]dns.RR
+		switch st.N % 3 {
+		case 0:
+			sec = &x.Answer
+		case 1:
+			sec = &x.Ns
+		default:
+			sec = &x.Extra
+		}
+		n := len(*sec)
+		*sec = append((*sec)[:n:n], bad)
+		var perr error
+		func() {
+			// an ill-formed record is outside the statement: neither an error nor a panic of this call is
+			// judged here (C02 and the packer's own tests are about that)
+			defer func() {
+				if r := recover(); r != nil {
+					perr = fmt.Errorf("panic: %v", r)
+					classes = append(classes, "failed-pack:panicked")
+				}
+			}()
+			if st.Bad/badKinds%2 == 1 {
+				_, perr = x.PackBuffer(make([]byte, 600))
+			} else {
+				_, perr = x.Pack()
+			}
+		}()
+		*sec = (*sec)[:n]
+		classes = append(classes, "ill-formed:"+what)
+		if perr == nil {
+			classes = append(classes, "failed-pack:did-not-fail")
+			break
+		}
+		classes = append(classes, "failed-pack:refused")
+		if compress {
+			s.failedCompressed = true
+		}
 	case "drop-rec":
 		// the first record of the first non-empty section that is not the OPT record
 		switch {
@@ -240,28 +354,101 @@ func (s *histState) packAndCompare(step int, st histStep) (w []byte, err error) 
 	if packErr != nil {
 		return nil, pbt.Errf("history, %s: Pack failed on a representable message (rcode %d): %v (reference %s)", at, s.cur.Rcode, packErr, hx(w))
 	}
-	if !bytes.Equal(p, w) {
+	if s.compress {
+		if err := compressedImage(at, p, w); err != nil {
+			return nil, err
+		}
+	} else if !bytes.Equal(p, w) {
 		return nil, pbt.Errf("history, %s: Pack of the value as it is now (rcode %d) differs from the RFC encoding: %s", at, s.cur.Rcode, hexdiff(p, w))
 	}
 	// and it reads back: RCODE re-joined
 	var u dns.Msg
-	if err := u.Unpack(append([]byte(nil), p...)); err != nil {
-		return nil, pbt.Errf("history, %s: the packed image does not unpack: %v", at, err)
+	in := append([]byte(nil), p...)
+	if err := u.Unpack(in); err != nil {
+		return nil, pbt.Errf("history, %s: the packed image does not unpack: %v (%s)", at, err, hx(p))
 	}
 	if u.Rcode != s.cur.Rcode {
 		return nil, pbt.Errf("history, %s: packed with rcode %d, reads back as %d", at, s.cur.Rcode, u.Rcode)
 	}
+	if s.compress {
+		// "unpacking those octets yields a message equal to the original" - for the uncompressed image
+		// (== w) this is relation (2) of the message sub-check; a compressed image is only seen here
+		for i := range in {
+			in[i] = 0x5C
+		}
+		m2, err := wm.MsgFromLib(&u, true)
+		if err != nil {
+			return nil, pbt.Errf("history, %s: the unpacked compressed image cannot be read back: %v", at, err)
+		}
+		if w2, err := wm.Encode(m2); err != nil || !bytes.Equal(w2, w) {
+			return nil, pbt.Errf("history, %s: Unpack of the image packed with Compress set gives another message (err=%v): %s; image %s", at, err, hexdiff(w2, w), hx(p))
+		}
+		return p, nil
+	}
 	return w, nil
 }
 
+// compressedImage holds an image packed with Compress set against RFC 1035 4.1.4: read by the
+// harness's strict pointer-following decoder it is exactly the message whose canonical uncompressed
+// encoding is w (names octet for octet), and every pointer leads to a prior offset. (Which names
+// are compressed, how well, and the 16384 limit are C04's business.)
+func compressedImage(at string, p, w []byte) error {
+	var tr wm.Trace
+	mc, err := wm.Decode(p, &tr)
+	if err != nil {
+		return pbt.Errf("history, %s: the image packed with Compress set is not a message an RFC 1035 decoder can read: %v; image %s, the message uncompressed %s", at, err, hx(p), hx(w))
+	}
+	wc, err := wm.Encode(mc)
+	if err != nil || !bytes.Equal(wc, w) {
+		return pbt.Errf("history, %s: the image packed with Compress set reads (pointers followed) as another message than the value holds (err=%v): %s; image %s", at, err, hexdiff(wc, w), hx(p))
+	}
+	for _, nr := range tr.Names {
+		for _, ptr := range nr.Ptrs {
+			if ptr.Target >= ptr.At {
+				return pbt.Errf("history, %s: compression pointer at offset %d leads to offset %d, not to a prior occurrence (RFC 1035 4.1.4); image %s", at, ptr.At, ptr.Target, hx(p))
+			}
+		}
+	}
+	return nil
+}
+
+// suffixKeys: every non-root suffix of every question, owner and RDATA name of the message
+// (classification only: what a compressing packer may have remembered).
+func suffixKeys(m wm.Msg) map[string]bool {
+	out := map[string]bool{}
+	add := func(n wm.Name) {
+		for i := range n {
+			out[string(wm.EncodeName(n[i:]))] = true
+		}
+	}
+	for _, q := range m.Q {
+		add(q.Name)
+	}
+	for _, r := range m.AllRecs() {
+		add(r.Name)
+		for _, f := range r.Fields {
+			add(f.N)
+			for _, n := range f.NL {
+				add(n)
+			}
+		}
+	}
+	return out
+}
+
+func compressible(m wm.Msg) bool { return len(m.Q) > 1 || len(m.AllRecs()) > 0 }
+
 func checkHistory(c histCase) error {
-	lib, err := wm.MsgToLib(c.Start, false)
+	lib, err := wm.MsgToLib(c.Start, c.Compress)
 	if err != nil {
 		return nil
 	}
-	s := &histState{lib: lib, cur: c.Start}
+	s := &histState{lib: lib, cur: c.Start, compress: c.Compress}
 	s.cur.Ex = append([]wm.Rec{}, s.cur.Ex...)
 	var classes []string
+	if c.Compress {
+		classes = append(classes, "starts-with-compress-set")
+	}
 	var key []byte
 	distinct := 0
 	var last []byte
@@ -304,11 +491,27 @@ func checkHistory(c histCase) error {
 			classes = append(classes, "step-without-pack")
 			continue
 		}
+		if s.compress && compressible(s.cur) {
+			classes = append(classes, "compressed-pack")
+			if s.failedCompressed {
+				// the class of round 9: the ordinary Pack of a well-formed message after a Pack that failed
+				classes = append(classes, "compressed-pack-after-failed-compressed-pack")
+				for k := range suffixKeys(s.cur) {
+					if s.failedNames[k] {
+						classes = append(classes, "compressed-pack-after-failed-compressed-pack,shared-name")
+						break
+					}
+				}
+			}
+		}
 		w, err := s.packAndCompare(i, st)
 		if err != nil {
 			return finish(err)
 		}
 		note(w)
+		if w != nil {
+			s.failedCompressed = false
+		}
 		if w != nil && s.cur.Opt() >= 0 {
 			s.origin = "pack"
 		}
@@ -367,7 +570,7 @@ func genHistMsg(t *rapid.T, unpacked bool) wm.Msg {
 }
 
 func genHistory(t *rapid.T) histCase {
-	c := histCase{Start: genHistMsg(t, false)}
+	c := histCase{Start: genHistMsg(t, false), Compress: rapid.Bool().Draw(t, "compress")}
 	maxSteps := 6
 	if pbt.Thorough() {
 		maxSteps = 12
@@ -376,7 +579,7 @@ func genHistory(t *rapid.T) histCase {
 	lowerNext := false
 	for i := 0; i < n; i++ {
 		var st histStep
-		k := rapid.IntRange(0, 20).Draw(t, "op") + 3
+		k := rapid.IntRange(0, 24).Draw(t, "op") + 3
 		if lowerNext {
 			k = 3
 		}
@@ -406,6 +609,19 @@ func genHistory(t *rapid.T) histCase {
 			st = histStep{Op: rapid.SampledFrom([]string{"udpsize", "z"}).Draw(t, "field"), N: int(gen.UintB(t, 16))}
 		case k >= 19 && k <= 22:
 			st = histStep{Op: "toggle-opt", N: rapid.SampledFrom([]int{0, 512, 1232, 4096, 65535}).Draw(t, "size")}
+		case k == 24:
+			st = histStep{Op: "compress", N: rapid.IntRange(0, 1).Draw(t, "on")}
+		case k >= 25:
+			// a Pack that fails (ill-formed record in section N), in this value or in another one that
+			// holds the same message (a second reply built for the same question) or an unrelated one
+			st = histStep{Op: "failed-pack", Bad: rapid.IntRange(0, 2*badKinds-1).Draw(t, "bad"), N: rapid.IntRange(0, 2).Draw(t, "sec")}
+			switch rapid.IntRange(0, 5).Draw(t, "where") {
+			case 0, 1:
+				st.Other, st.C = true, rapid.IntRange(0, 3).Draw(t, "othercompress") != 0
+			case 2:
+				m := genHistMsg(t, false)
+				st.Other, st.C, st.Msg = true, rapid.IntRange(0, 3).Draw(t, "othercompress") != 0, &m
+			}
 		default:
 			if rapid.Bool().Draw(t, "add") {
 				o := &gen.Opts{Avoid: avoid(), Excluded: pbt.Excluded, Unknown: true, MaxBlob: 40}
@@ -417,6 +633,9 @@ func genHistory(t *rapid.T) histCase {
 		}
 		if st.Op != "pack" && st.Op != "packbuf" && i < n-1 {
 			st.NoPack = rapid.IntRange(0, 2).Draw(t, "nopack") == 0
+			if st.Op == "failed-pack" && st.NoPack {
+				st.NoPack = rapid.IntRange(0, 2).Draw(t, "nopack2") == 0 // mostly: the failure, then the ordinary Pack at once
+			}
 		}
 		// the forwarder's sequence, literally: the upper bits arrive (Unpack / setter), the RCODE is
 		// lowered, and only then the value is packed
